@@ -114,6 +114,8 @@ def tlc(module, cfg_text, wd, workers=None, timeout=1800, env=None, simulate=Non
     t0 = time.time()
     out_fh = open(printed_to, "w") if printed_to else None
     tail = []
+    saw_ok = False
+    saw_bad = False
     try:
         p = subprocess.Popen(["timeout", str(timeout)] + cmd, cwd=wd, env=e, stdout=subprocess.PIPE,
                              stderr=subprocess.STDOUT, text=True, errors="replace")
@@ -127,6 +129,11 @@ def tlc(module, cfg_text, wd, workers=None, timeout=1800, env=None, simulate=Non
                 elif keep_printed:
                     res.printed.append(payload)
                 continue
+            if "No error has been found" in line:
+                saw_ok = True
+            if ("is violated" in line or line.startswith("Error: Action property") or line.startswith("Error: Invariant")
+                    or "Temporal properties were violated" in line or line.startswith("Error: Postcondition")):
+                saw_bad = True
             tail.append(line)
             if len(tail) > 400:
                 del tail[:200]
@@ -151,18 +158,12 @@ def tlc(module, cfg_text, wd, workers=None, timeout=1800, env=None, simulate=Non
     text = "".join(tail)
     if rc == 124:
         raise ToolError(f"TLC timed out on {module}")
-    if res.rejected and rc in (10, 12, 13, 1):
+    if saw_bad or (res.rejected and rc != 0):
         res.violation = True
-    elif "is violated" in text or "Error: Action property" in text or ("violated" in text and rc in (12, 13)):
-        res.violation = True
-    elif rc == 0 and ("No error has been found" in text or simulate):
-        res.ok = True
-    elif simulate and rc in (0,):
+    elif rc == 0 and (saw_ok or simulate):
         res.ok = True
     else:
-        if "Parsing or semantic analysis failed" in text or rc not in (0, 12, 13):
-            raise ToolError(f"TLC failed on {module} (rc={rc}):\n{res.tail}")
-        res.violation = True
+        raise ToolError(f"TLC failed on {module} (rc={rc}):\n{res.tail}")
     return res
 
 
@@ -223,6 +224,20 @@ def run_vh_parallel(arg_lists, timeout=3600):
         else:
             out.append(summary)
     return out
+
+
+def collect(v, outs, suite, what):
+    """Common handling of worker outputs: crashes and hangs become violations; returns merged summary."""
+    good = []
+    for o in outs:
+        if "crash" in o:
+            v.add_violation(f"harness worker crashed (process died) while {what}", o, {"suite": suite, "kind": "crash"})
+        elif "hang" in o:
+            v.add_violation(f"code under test did not return within the watchdog limit while {what}", o["hang"],
+                            {"suite": suite, "kind": "hang"})
+        else:
+            good.append(o)
+    return merge_summaries(good)
 
 
 def merge_summaries(summaries):
